@@ -41,6 +41,34 @@ def check_memory(c):
     return devs, calls
 
 
+def check_memory_near_wrap(c):
+    """Wide in-memory counters cannot be run through 2^width calls; the provider's public ``count`` attribute positions it just below the wrap."""
+    seqcount, PacketSeqCtrl, SequenceFlags = _m()
+    devs = []
+    w = c["width"]
+    mod = 1 << w
+    p = seqcount.SeqCountProvider(w)
+    eq(devs, "memory.near_wrap.first_use", next(p), 0)
+    p.count = (mod - c["below"]) % mod
+    expect = p.count
+    for n in range(c["calls"]):
+        v = next(p) if (n + c["below"]) % 2 else p.get_and_increment()
+        if v != expect or not (0 <= v < mod):
+            devs.append(Dev("memory.near_wrap.sequence", f"width {w}, positioned at 2^{w}-{c['below']}: call {n} returned {v}, want {expect}"))
+            break
+        expect = (expect + 1) % mod
+    return devs, c["calls"]
+
+
+def enum_memory_near_wrap(tier, shard, nshards, rng):
+    i = 0
+    for w in list(range(1, 65)):
+        for below in (1, 2, 3):
+            i += 1
+            if i % nshards == shard and below <= (1 << w):
+                yield {"width": w, "below": below, "calls": 7}
+
+
 def check_memory_set_width(c):
     """The documented ``max_bit_width`` setter: set before first use (any width) or widened in mid-sequence; from then on the
     provider counts modulo 2^(new width)."""
@@ -252,6 +280,10 @@ def enum_file_long(tier, shard, nshards, rng):
     # wrap-arounds at which the decimal representation of the count shrinks by one, two, three and four characters
     for w in (4, 7, 10, 14, 16):
         cases.append({"width": w, "start": (1 << w) - 3, "calls": 16, "restarts": [2, 3, 4, 9]})
+    # wide counters (transaction / frame counters of 24..64 bit): the wrap is reached by starting just below it; beyond 2^53 integers
+    # are no longer exactly representable in floating point
+    for w in (17, 24, 31, 32, 33, 48, 52, 53, 54, 55, 56, 60, 63, 64):
+        cases.append({"width": w, "start": (1 << w) - 3, "calls": 9, "restarts": [1, 3, 4]})
     if tier == "thorough":
         calls = (1 << 14) + 3
         for k in range(4):
@@ -276,7 +308,7 @@ def st_bad():
         return st.fixed_dictionaries({"k": st.just("content"), "width": st.just(w), "bad": bad_text, "calls_before": st.integers(0, 3)})
 
     missing = st.fixed_dictionaries({"k": st.just("missing"), "width": st.sampled_from([1, 3, 14]), "calls_before": st.integers(0, 3)})
-    return st.one_of(st.sampled_from([1, 2, 3, 8, 14]).flatmap(for_width), missing)
+    return st.one_of(st.sampled_from([1, 2, 3, 8, 14]).flatmap(for_width), st.sampled_from([1, 2, 3, 8, 14, 16, 32, 53, 54, 56, 63, 64]).flatmap(for_width), missing)
 
 
 def check_bad(c):
@@ -344,6 +376,17 @@ CLAUSES = [
         shards={"quick": 2, "thorough": 8},
     ),
     Clause(
+        id="C19.memory.near_wrap",
+        doc="in-memory provider of every width 1..64 positioned 1, 2, 3 below the wrap through its public count attribute: 7 further calls count up to 2^w - 1 and continue at 0",
+        kind="enum",
+        enum=enum_memory_near_wrap,
+        check=check_memory_near_wrap,
+        classify=lambda c: ["width <= 16" if c["width"] <= 16 else ("width 17..53" if c["width"] <= 53 else "width 54..64")],
+        required=["width <= 16", "width 17..53", "width 54..64"],
+        shards={"quick": 2, "thorough": 4},
+        weight_by_evals=True,
+    ),
+    Clause(
         id="C19.file.machine",
         doc="file-backed provider as a rule-based machine: next / get_and_increment / burst / current / reinstantiate (restart point) / inspect_file; file holds the next value between calls",
         kind="history",
@@ -360,7 +403,7 @@ CLAUSES = [
         enum=enum_file_long,
         check=check_file_long,
         classify=lambda c: [f"width {c['width']}"] + (["restart at every call"] if len(c["restarts"]) == c["calls"] else []),
-        required=["width 14", "width 7", "width 16", "restart at every call"],
+        required=["width 14", "width 7", "width 16", "width 32", "width 54", "width 64", "restart at every call"],
         shards={"quick": 4, "thorough": 16},
     ),
     Clause(
